@@ -24,6 +24,7 @@ META = {
                  'flat/broken content agreement, canonical nest amounts',
 }
 META['text'] += ' The same sub-value is printed at the same nesting depth in both alternatives of a choice; the configuration is followed into package helpers it is passed to; (e) the layout engine emits a rendering of the document under some choice of flat / broken for its groups and fill separators (interpreted layouts, shared with C04.n): nothing is dropped or replaced when a separator breaks.'
+META['text'] += ' Round 5: the string, layout and comment models run scenarios scaled past the size constants mined from the code they interpret.'
 
 SOURCES_EVAL = ('indent', 'column', 'page_width', 'ribbon_width')
 _MOD = None
